@@ -134,7 +134,10 @@ def run(ck):
         for what, sets, getter, must_guard in (("formatted text", set_f, LM + "::formattedMessage", True), ("attributes", set_a, LM + "::attributes", False)):
             tag = "fmsg" if must_guard else "attrs"
             if not sets:
-                ck.ob("C01-O4", sitestr(proc), False, "scoped pipeline never restores the %s" % what, key="Pipeline::process|no-restore-" + tag)
+                # handed to a function this rule does not see into (by non-const reference)? then the restore may happen there
+                esc = [p_ for r_ in refs_to(proc, lmsg) for p_ in [proc.nodes[proc.parent[r_["id"]]]] if p_.get("k") == "call" and p_.get("id") != call["id"] and p_.get("inl_body") is None
+                       and not (p_.get("ck") == "member" and skip_copies(p_.get("obj")).get("id") == r_["id"])]
+                ck.ob("C01-O4", sitestr(proc), None if esc else False, "scoped pipeline never restores the %s%s" % (what, " itself; the message is handed to %s" % describe(esc[0])[:40] if esc else ""), key="Pipeline::process|no-restore-" + tag)
                 continue
             ssites = set(g.sites_of_nodes(sets))
             # restore after the loop on all scoped paths
